@@ -740,7 +740,7 @@ class Interp:
             result = c.returns(self, env.vars)  # custom constructor of the abstract result
         elif c.returns is not None:
             result = c.returns.make(self, self.path.fresh(f"ret:{fq.split(':')[-1]}"))
-        elif fn is not None and _returns_a_value(fn.node):
+        elif (fn is not None and _returns_a_value(fn.node)) or (fn is None and any("result" in cl for cl in (c.call_ensures if c.call_ensures is not None else c.ensures).values())):
             # the contract says nothing about the result although the real function returns one: any inspection of it is out of subset
             # (a silent None here made callers' contracts vacuous)
             result = Unknown(f"result of {fq}: its contract has no `returns`")
@@ -1329,6 +1329,7 @@ class Interp:
             self.path.oblige(f"{name}:inv-step#{k}", "loop-inv-step", truthy(self.eval_spec(cl, ienv2)), detail=cl)
         for k, cl in enumerate(inv.get("step_only", [])):
             self.path.oblige(f"{name}:iteration-end#{k}", "loop-inv-step", truthy(self.eval_spec(cl, ienv2)), detail=cl)
+        self.path.completed_by_cut = True  # (vacuity guard: this path did reach its end - the end of the arbitrary iteration)
         raise Abort()  # the arbitrary iteration is done; the continuation is covered by the exit branch
 
     def iterate_all(self, v, lazy_exc=False):
@@ -1700,7 +1701,12 @@ class Interp:
         it = self.eval(g.iter, env)
         if isinstance(it, _GenExp):
             it = self.genexp_list(it)
-        for x in self.iterate_all(it):
+        items = self.iterate_all(it)
+        if self.cover_ctx is not None and self.spec and k == 0 and not getattr(self, "_in_quant", 0):
+            # vacuity guard: a quantification over a collection that is empty on every path says nothing
+            key = (self.cover_ctx, "for " + ast.unparse(g.target) + " in " + ast.unparse(g.iter)[:140])
+            self.path.covers[key] = self.path.covers.get(key, False) or len(items) > 0
+        for x in items:
             self.assign_target(g.target, x, env)
             if all(self.branch_truthy(self.eval(c, env)) for c in g.ifs):
                 self.comp(gens, k + 1, env, emit)
